@@ -8,9 +8,11 @@ CMP = {"lt": "<", "le": "<=", "gt": ">", "ge": ">=", "eq": "==", "ne": "!="}
 
 
 class G:
-    def __init__(self, rng, max_depth=3):
+    def __init__(self, rng, max_depth=3, promote=False):
         self.rng = rng
         self.max_depth = max_depth
+        self.promote = promote      # top-level compound statements of the prologue may introduce names directly in their bodies (tr2)
+        self.fresh = 0
         self.loopvars = 0
         self.counters = 0
 
@@ -97,6 +99,61 @@ class G:
             return ("for", iv, cnt, body)
         return ("if", self.bool_expr(1, names), [("brk",)], [])
 
+    def new_assign(self, names, typ=None):
+        """first assignment of a fresh name (int or bool), over the names visible so far"""
+        r = self.rng
+        self.fresh += 1
+        typ = typ or r.choice(["int", "int", "bool"])
+        x = f"{'v' if typ == 'int' else 'w'}{self.fresh}"
+        inames = [n for n in names if n in INTS or n.startswith("v")]
+        e = self.int_expr(1, inames) if typ == "int" else self.bool_expr(1, [n for n in names if n in INTS + BOOLS])
+        return x, typ, ("as", x, e)
+
+    def top_stmt_promoting(self, names):
+        """a top-level statement of the prologue; compound ones may introduce names directly in their bodies.
+        `names` grows (in place) by the names definitely assigned afterwards"""
+        r = self.rng
+        k = r.choice(["plain", "if", "ifelse", "chain", "for", "while"])
+        base = [n for n in names if n in INTS + BOOLS]
+        if k == "plain":
+            return [self.stmt(self.max_depth - 1, base, False)]
+        if k in ("if", "ifelse", "chain"):
+            nb = {"if": 1, "ifelse": 2, "chain": 3}[k]
+            x, typ, first = self.new_assign(base)
+            blocks = []
+            for j in range(nb):
+                blk = self.block(self.max_depth - 2, base, False, r.randint(0, 2))
+                if j == 0 or r.random() < 0.7:
+                    _, _, a = self.new_assign(base, typ)
+                    a = ("as", x, a[2])
+                    pos = r.randint(0, len(blk))
+                    blk = blk[:pos] + [a] + ([("wr", ("v", x))] if typ == "int" and r.random() < 0.5 else []) + blk[pos:]
+                if r.random() < 0.4:                      # a second new name in this branch only
+                    y, ty, ay = self.new_assign(base)
+                    blk = blk + [ay]
+                blocks.append(blk or [("sl", ("i", 1))])
+            conds = [self.bool_expr(1, base) for _ in range(nb)]
+            if k == "if":
+                return [("if", conds[0], blocks[0], [])]
+            if k == "ifelse":
+                out = [("if", conds[0], blocks[0], blocks[1])]
+            else:
+                out = [("if", conds[0], blocks[0], [("if", conds[1], blocks[1], blocks[2])])]
+            return out
+        if k == "for":
+            self.loopvars += 1
+            iv = f"i{self.loopvars}"
+            x, typ, first = self.new_assign(base)
+            body = [first] + self.block(self.max_depth - 2, base, True, r.randint(0, 2))
+            if typ == "int":
+                body.append(("aug", x, "add", ("v", iv)))
+            return [("for", iv, ("i", r.randint(0, 3)), body)]
+        self.counters += 1
+        cn = f"n{self.counters}"
+        x, typ, first = self.new_assign(base)
+        body = [("aug", cn, "add", ("i", 1)), first] + self.block(self.max_depth - 2, base, True, r.randint(0, 2))
+        return [("seqw", cn, ("while", ("cmp", "lt", ("v", cn), ("i", r.randint(0, 3))), body))]
+
     def program(self, with_loop=None):
         r = self.rng
         names = INTS[: r.randint(2, 4)] + BOOLS[: r.randint(0, 2)]
@@ -107,7 +164,12 @@ class G:
             else:
                 pre.append(("as", n, r.choice([("i", r.randint(0, 9)), ("bin", "add", ("i", 2), ("i", r.randint(0, 5))), ("neg", ("i", r.randint(1, 5)))])))
         pre.append(("as", "lim", ("i", r.randint(0, 3))))
-        body_pre = self.block(self.max_depth, names, False, r.randint(1, 5))
+        if self.promote:
+            body_pre = []
+            for _ in range(r.randint(1, 5)):
+                body_pre += self.top_stmt_promoting(names)
+        else:
+            body_pre = self.block(self.max_depth, names, False, r.randint(1, 5))
         loop = None
         if with_loop if with_loop is not None else r.random() < 0.7:
             loop = self.block(self.max_depth - 1, names, False, r.randint(1, 4))
